@@ -268,7 +268,23 @@ func (fi *FuncInfo) FactsAt(in ssa.Instruction) *Facts {
 	}
 	for _, ef := range fi.EdgeFacts(in.Block().Index) {
 		cs := fi.Sym(ef.Cond)
-		for _, a := range atomsOf(cs, ef.Pos) {
+		as := atomsOf(cs, ef.Pos)
+		// a materialised short-circuit condition (`ok := a && b; if !ok {...}`): the literals its
+		// formula forces under this outcome
+		if cv, neg := stripNot(ef.Cond); isBoolPhi(cv) {
+			if bf := fi.valueBF(cv, 0); bf != nil {
+				as = nil
+				for _, lt := range forcedLiterals(bf, ef.Pos != neg) {
+					if lt.atom.Src != nil {
+						as = append(as, atomsOf(lt.atom.Src, lt.atom.SrcPos == lt.pos)...)
+					}
+				}
+				if len(as) == 0 {
+					as = atomsOf(cs, ef.Pos)
+				}
+			}
+		}
+		for _, a := range as {
 			a.If = ef.If
 			a.Loads = atomLoads(a)
 			f.Tested = append(f.Tested, a)
@@ -642,4 +658,58 @@ func looksInt(s *Sym) bool {
 		return true
 	}
 	return false
+}
+
+func stripNot(v ssa.Value) (ssa.Value, bool) {
+	neg := false
+	for {
+		u, ok := v.(*ssa.UnOp)
+		if !ok || u.Op != token.NOT {
+			return v, neg
+		}
+		v = u.X
+		neg = !neg
+	}
+}
+
+func isBoolPhi(v ssa.Value) bool {
+	ph, ok := v.(*ssa.Phi)
+	if !ok {
+		return false
+	}
+	b, ok := ph.Type().Underlying().(*types.Basic)
+	return ok && b.Kind() == types.Bool
+}
+
+type bfLiteral struct {
+	atom *BAtom
+	pos  bool
+}
+
+// forcedLiterals: atoms whose truth value is forced when f has value val (conjuncts of a true
+// conjunction, disjuncts of a false disjunction).
+func forcedLiterals(f *BF, val bool) []bfLiteral {
+	switch f.Op {
+	case 'a':
+		return []bfLiteral{{f.Atom, val}}
+	case '!':
+		return forcedLiterals(f.Kids[0], !val)
+	case '&':
+		if val {
+			var out []bfLiteral
+			for _, k := range f.Kids {
+				out = append(out, forcedLiterals(k, true)...)
+			}
+			return out
+		}
+	case '|':
+		if !val {
+			var out []bfLiteral
+			for _, k := range f.Kids {
+				out = append(out, forcedLiterals(k, false)...)
+			}
+			return out
+		}
+	}
+	return nil
 }
